@@ -514,7 +514,25 @@ func (c *Ctx) ListProgress() []core.Ob {
 					o := core.Ob{Rule: "R-PROGRESS", Key: fmt.Sprintf("nbt/dynbt:element-loop%d", k), Pos: c.P.Pos(call.Pos()), Func: name, Armed: true, Status: core.OK,
 						Want: "the count-bounded element loop is unreachable when the element tag is TagEnd (whose decoding consumes no input): a TagEnd list with a positive count is rejected"}
 					reached := false
-					t.ProbeAssume(fn, tag, AV{T: ivOf(0, 0)}, func(pin ssa.Instruction, eval func(ssa.Value) AV, _ func(string) (AV, bool)) {
+					assume := map[ssa.Value]AV{tag: {T: ivOf(0, 0)}}
+					// the tag and the count come out of one helper (elemType, n, err := readListHeader(r)): what
+					// can the helper hand back for the count, without an error, when the tag it read is TagEnd?
+					if ex, ok := tag.(*ssa.Extract); ok {
+						if hc, ok := ex.Tuple.(*ssa.Call); ok && hc.Referrers() != nil {
+							if g := hc.Common().StaticCallee(); g != nil && c.P.InModule(g) && len(g.Blocks) > 0 {
+								if rv := sameReturnedValue(g, ex.Index); rv != nil {
+									if okRes := t.OKResultsAssuming(core.Origin(g), rv, AV{T: ivOf(0, 0)}); okRes != nil {
+										for _, r := range *hc.Referrers() {
+											if sib, ok := r.(*ssa.Extract); ok && sib != ex && sib.Index < len(okRes) && (okRes[sib.Index].T != nil || okRes[sib.Index].P != nil) {
+												assume[sib] = okRes[sib.Index]
+											}
+										}
+									}
+								}
+							}
+						}
+					}
+					t.ProbeAssumeAll(fn, assume, func(pin ssa.Instruction, eval func(ssa.Value) AV, _ func(string) (AV, bool)) {
 						if pin == ssa.Instruction(call) {
 							reached = true
 						}
@@ -531,4 +549,25 @@ func (c *Ctx) ListProgress() []core.Ob {
 		obs = append(obs, core.Ob{Rule: "R-PROGRESS", Key: "nbt/dynbt:element-loop", Status: core.Violated, Armed: true, Want: "the list element loop is found", Got: "no count-bounded recursive loop found"})
 	}
 	return obs
+}
+
+// sameReturnedValue: the one SSA value fn returns as result idx at every return, or nil.
+func sameReturnedValue(fn *ssa.Function, idx int) ssa.Value {
+	var v ssa.Value
+	for _, b := range fn.Blocks {
+		for _, in := range b.Instrs {
+			r, ok := in.(*ssa.Return)
+			if !ok || idx >= len(r.Results) {
+				continue
+			}
+			if v != nil && r.Results[idx] != v {
+				return nil
+			}
+			v = r.Results[idx]
+		}
+	}
+	if _, isConst := v.(*ssa.Const); isConst {
+		return nil
+	}
+	return v
 }
